@@ -29,7 +29,8 @@ DESIGN_PROPS = {
     "C17": ["HistFaithful", "CritOfReturned"],
 }
 MODELS = ["AndersonCD", "GroupBCD", "MultiTaskBCD", "ProxNewton", "GramCD"]
-N_SCEN = {"quick": 220, "thorough": 4000}
+N_SCEN = {"quick": 160, "thorough": 2000}
+N_SCEN_PROP = {"C01": {"quick": 260, "thorough": 3000}}
 
 
 def sentinels(prop):
@@ -43,21 +44,31 @@ def sentinels(prop):
     return out
 
 
+# (model, property) pairs that the PINNED-tree constants must still violate: vacuity guard of the design model
+PINNED_EXPECT = {("ProxNewton", "CertSound"), ("GroupBCD", "CertSound"), ("GroupBCD", "HistFaithful"),
+                 ("MultiTaskBCD", "CertSound"), ("MultiTaskBCD", "HistFaithful"), ("ProxNewton", "HistFaithful"),
+                 ("AndersonCD", "Feasible"), ("AndersonCD", "Descent")}
+
+
 def design_stage(ck, prop, tier):
-    """Run CDCore for every solver model: `design` constants must satisfy the property (else the
-    model itself is wrong: machinery failure); `asis` constants document what the code does."""
+    """Run CDCore for every solver model. `asis` constants describe the code as it is now: a violation is
+    reported as a note (and becomes a sentinel), never as a property violation by itself. `pinned`
+    constants describe the pinned tree: the pairs of PINNED_EXPECT must still be violated (else the model
+    has become vacuous: machinery failure)."""
     jobs = []
     labels = []
     for m in MODELS:
-        for variant in ("asis", "design"):
+        for variant in ("asis", "pinned"):
             name = f"CDCore_{m}_{variant}"
             cfgp = os.path.join(tlc.SPECS, "mc", name + ".cfg")
             if not os.path.exists(cfgp):
                 continue
             base = open(cfgp).read()
-            if tier == "quick":
+            if tier == "quick" or variant == "pinned":
                 base = base.replace("MaxIter = 2", "MaxIter = 1")
             for pr in DESIGN_PROPS[prop]:
+                if variant == "pinned" and (m, pr) not in PINNED_EXPECT:
+                    continue
                 kind = "PROPERTY" if pr == "Descent" else "INVARIANT"
                 jobs.append(dict(spec="CDCore", cfg_text=base + f"\n{kind} {pr}\n", timeout=1500,
                                  tag=name))
@@ -65,19 +76,42 @@ def design_stage(ck, prop, tier):
     res = tlc.run_many(jobs, parallel=6)
     for (m, variant, pr), r in zip(labels, res):
         ck.add_tlc(r, name=f"CDCore[{m},{variant}] |= {pr}", kind="design")
-        if variant == "design" and r["violated"]:
-            ck.machinery(f"intended-design model CDCore[{m}] violates {pr}: the model is wrong")
+        if variant == "pinned" and not r["violated"]:
+            ck.machinery(f"CDCore[{m}] with the pinned-tree constants no longer violates {pr}: vacuous model")
         if variant == "asis" and r["violated"]:
             steps = [a.split(" line")[0].strip("<") for a, _ in r["trace"]]
             ck.cov["notes"].append(f"as-is model CDCore[{m}] admits a violation of {pr}: "
                                    + " -> ".join(steps))
 
 
-def gen_scenarios(prop, n, seed):
+DENSITY = 5          # simulate DENSITY * n behaviours, keep those on the compositions of the first n
+
+
+def gen_scenarios(prop, n, seed, density=DENSITY):
+    """n random scenarios, then every further scenario (out of density * n) whose (solver, datafit, penalty) already
+    occurs among them: the numba compilation of a composition is what costs, further runs of it are nearly free, and
+    knobs such as storage x intercept x strategy x budget x warm start get covered several times per composition."""
     cfg = f'SPECIFICATION Spec\nCONSTANT Focus = "{prop}"\nINVARIANT WellFormed\nCHECK_DEADLOCK FALSE\n'
-    r = tlc.run("SolverScenario", cfg_text=cfg, simulate=f"num={n}", depth=20, seed=seed,
-                timeout=600)
-    return r["printed"], r
+    r = tlc.run("SolverScenario", cfg_text=cfg, simulate=f"num={n * density}", depth=20, seed=seed,
+                timeout=900)
+    allsc = r["printed"]
+    base = allsc[:n]
+
+    def comp(sc):
+        return (sc["solver"], sc["datafit"], sc["penalty"])
+    comps = {comp(sc) for sc in base}
+    cap = max(8, (density * n) // max(1, len(comps)))
+    cnt = {}
+    out, seen = [], set()
+    for sc in allsc:
+        k = comp(sc)
+        sig = json.dumps(sc, sort_keys=True)
+        if k not in comps or sig in seen or cnt.get(k, 0) >= cap:
+            continue
+        seen.add(sig)
+        cnt[k] = cnt.get(k, 0) + 1
+        out.append(sc)
+    return out, r
 
 
 def run(prop, tier, seed):
@@ -99,7 +133,7 @@ def run(prop, tier, seed):
         "driven by TLC-generated structure"]
     try:
         design_stage(ck, prop, tier)
-        scs, r = gen_scenarios(prop, N_SCEN[tier], seed)
+        scs, r = gen_scenarios(prop, N_SCEN_PROP.get(prop, N_SCEN)[tier], seed)
         ck.add_tlc(dict(distinct=len(scs), states=len(scs), wall_s=r["wall_s"]),
                    name=f"SolverScenario[Focus={prop}] -simulate", kind="scenario generator")
     except tlc.TLCError as e:
@@ -116,7 +150,7 @@ def run(prop, tier, seed):
             items.append((dict(s["scenario"], sentinel=s["name"]), seed * 1000 + k, tid))
     traces, errors = pool.map_grouped(
         "harness.scen", "run", items,
-        key=lambda it: (it[0]["solver"], it[0]["datafit"], it[0]["penalty"]))
+        key=lambda it: (it[0]["solver"], it[0]["datafit"], it[0]["penalty"]), chunk=30)
     for it, msg, tb in errors:
         ck.machinery(f"driver failed on {it[0] if it else None}: {msg}\n{tb}")
     if errors:
@@ -170,6 +204,16 @@ def run(prop, tier, seed):
                            first_events=[_short(e) for e in tr["events"][:5]],
                            last_event=_short(tr["events"][-1])))
     ck.cov["by_catch_other_clauses"] = bycatch
+    if prop == "C03":
+        # exact replay of the design model's arithmetic (spec -> code); drift is binding information
+        from . import micro
+        # the last sentence of C03: iterative reweighting (Reweight.tla design model + real runs)
+        from . import reweight
+        reweight.run_binding(ck, pool, tier, seed)
+        nd = micro.run_binding(ck, pool)
+        if nd:
+            print(f"DRIFT: MicroCD exact replay disagrees with the real AndersonCD on {nd} problem(s) "
+                  "(see evidence coverage.binding) -- the exact design model no longer describes the code")
     return ck.finish()
 
 
@@ -179,13 +223,25 @@ def _explain(tr, pos, clause):
         return {}
     e = tr["events"][pos - 1]
     out = {}
+    if clause in ("descent", "accept_safe", "start") and "obj" in e:
+        prev = None
+        for q in reversed(tr["events"][:pos - 1]):
+            if "obj" in q and q["obj"] is not None:
+                prev = q["obj"]
+                break
+        try:
+            inc = (e["obj"] - prev) / max(1.0, abs(prev))
+            out["increase_rel"] = inc
+            out["increase_band"] = "<1e-6" if inc < 1e-6 else ">=1e-6"
+        except Exception:  # noqa: BLE001
+            pass
     if clause in ("cert", "cert_outer", "crit_value") and "vfeat" in e:
         vb, crit, vfeat, vint = e.get("vb"), e.get("crit"), e.get("vfeat"), e.get("vint")
         try:
             # the violation is entirely the intercept gradient, within the factor 4 = 1/L0 of Logistic
             out["explained_by_intercept_factor4"] = bool(
                 vfeat <= max(vb, crit * (1 + 1e-6)) and vint <= 4 * max(vb, crit) * (1 + 1e-6)
-                and vint / 4 <= crit * (1 + 1e-6) + 1e-12)
+                and vint / 4 <= crit * (1 + 1e-3) + 1e-12)
             r = crit / e["viol"] if e["viol"] > 0 else float("inf")
             out["crit_over_viol"] = r
             out["ratio_band"] = "<=4x" if 0.25 <= r <= 4.0 else ">4x"
